@@ -237,7 +237,7 @@ pub fn bitops_spec(name: &str, make: fn() -> BitOps, make_e: fn() -> EntropyBitO
                     eq!("bit_interleaving_bmi2", ops.bit_interleaving_bmi2(l, h), want, "{l:#x}, {h:#x}");
                     for masks in st.chunks(5) {
                         let want: Vec<u64> = masks.iter().map(|&m| ref_pext(x, m)).collect();
-                        eq!("parallel_bit_extract_bmi2", ops.parallel_bit_extract_bmi2(x, masks), want, "{x:#x}, {} masks", masks.len());
+                        eq!("parallel_bit_extract_bmi2", ops.parallel_bit_extract_bmi2(x, masks), want.clone(), "{x:#x}, {} masks", masks.len());
                         let want32: Vec<u32> = want.iter().map(|&v| v as u32).collect();
                         eq!("extract_huffman_symbols_bmi2", ops.extract_huffman_symbols_bmi2(x, masks), want32, "{x:#x}, {} masks", masks.len());
                     }
@@ -259,9 +259,11 @@ pub fn bitops_spec(name: &str, make: fn() -> BitOps, make_e: fn() -> EntropyBitO
 pub fn dispatcher_spec(name: &str, make: fn() -> CompressionBmi2Dispatcher) -> Spec {
     let gen = move |_tier: Tier, out: &mut dyn FnMut(Case) -> bool| {
         let nw = words().len();
-        for ch in 0..(nw + CHUNK - 1) / CHUNK {
-            if !out(Case { k: ch as u32, ..Default::default() }) {
-                return;
+        for v in [0u8, 1] {
+            for ch in 0..(nw + CHUNK - 1) / CHUNK {
+                if !out(Case { k: ch as u32, v, ..Default::default() }) {
+                    return;
+                }
             }
         }
     };
@@ -271,35 +273,41 @@ pub fn dispatcher_spec(name: &str, make: fn() -> CompressionBmi2Dispatcher) -> S
         let lo = case.k as usize * CHUNK;
         let hi = (lo + CHUNK).min(w.len());
         let win = &w[lo..hi];
-        let table: [(&str, CompressionOperation, fn(u64) -> u64); 4] = [
-            ("PopCount", CompressionOperation::PopCount, |x| ref_popcount(x) as u64),
-            ("LeadingZeros", CompressionOperation::LeadingZeros, |x| (0..64).find(|&i| x >> (63 - i) & 1 == 1).unwrap_or(64) as u64),
-            ("TrailingZeros", CompressionOperation::TrailingZeros, |x| ref_tz(x, 64) as u64),
-            ("BitReverse", CompressionOperation::BitReverse, |x| ref_reverse(x, 64)),
-        ];
-        for (nm, op, r) in table {
-            let got = d.dispatch_bit_stream_process(win, op);
-            let want: Vec<u64> = win.iter().map(|&x| r(x)).collect();
-            if got != want {
-                let p = got.iter().zip(&want).position(|(a, b)| a != b).unwrap_or(0);
-                return fail("bit_helper", format!("dispatch_bit_stream_process/{nm}"), format!("{nm}({:#x}) = {:#x?}, scalar loop gives {:#x?}", win[p], got.get(p), want.get(p)));
-            }
-        }
-        let st = structured();
-        for &x in win {
-            for masks in st.chunks(7) {
-                let got = d.dispatch_variable_length_decode(x, masks);
-                let want: Vec<u32> = masks.iter().map(|&m| ref_pext(x, m) as u32).collect();
+        if case.v == 0 {
+            let table: [(&str, CompressionOperation, fn(u64) -> u64); 4] = [
+                ("PopCount", CompressionOperation::PopCount, |x| ref_popcount(x) as u64),
+                ("LeadingZeros", CompressionOperation::LeadingZeros, |x| (0..64).find(|&i| x >> (63 - i) & 1 == 1).unwrap_or(64) as u64),
+                ("TrailingZeros", CompressionOperation::TrailingZeros, |x| ref_tz(x, 64) as u64),
+                ("BitReverse", CompressionOperation::BitReverse, |x| ref_reverse(x, 64)),
+            ];
+            for (nm, op, r) in table {
+                let got = d.dispatch_bit_stream_process(win, op);
+                let want: Vec<u64> = win.iter().map(|&x| r(x)).collect();
                 if got != want {
-                    return fail("bit_helper", "dispatch_variable_length_decode", format!("decode({x:#x}, {} masks) = {got:x?}, scalar pext loop gives {want:x?}", masks.len()));
+                    let p = got.iter().zip(&want).position(|(a, b)| a != b).unwrap_or(0);
+                    return fail("bit_helper", format!("dispatch_bit_stream_process/{nm}"), format!("{nm}({:#x}) = {:#x?}, scalar loop gives {:#x?}", win[p], got.get(p), want.get(p)));
                 }
             }
         }
-        Outcome::pass("dispatcher")
+        // parallel extraction into u32 symbols: masks of <= 32 bits (v=0) and of > 32 bits (v=1; the
+        // accelerated path defines the result as the low 32 bits of the extraction)
+        let st: Vec<u64> = structured().into_iter().filter(|m| (m.count_ones() > 32) == (case.v == 1)).collect();
+        let mc = if case.v == 1 { "mask_bits>32" } else { "mask_bits<=32" };
+        for &x in win {
+            for masks in st.chunks(7) {
+                let want: Vec<u32> = masks.iter().map(|&m| ref_pext(x, m) as u32).collect();
+                match zverif::util::catch(|| d.dispatch_variable_length_decode(x, masks)) {
+                    Ok(got) if got == want => {}
+                    Ok(got) => return fail("bit_helper", format!("dispatch_variable_length_decode/wrong/{mc}"), format!("decode({x:#x}, {:x?}) = {got:x?}, scalar pext loop (low 32 bits) gives {want:x?}", masks)),
+                    Err(f) => return fail("bit_helper", format!("dispatch_variable_length_decode/panic/{mc}"), format!("decode({x:#x}, {:x?}): {}; scalar pext loop (low 32 bits) gives {want:x?}", masks, f.detail)),
+                }
+            }
+        }
+        Outcome::pass(if case.v == 0 { "dispatcher/stream_ops+masks<=32" } else { "dispatcher/masks>32" })
     };
     Spec {
         name: name.to_string(),
-        space: "CompressionBmi2Dispatcher: dispatch_bit_stream_process {PopCount, LeadingZeros, TrailingZeros, BitReverse} on all of W (chunks of 128 words), dispatch_variable_length_decode on W x 64 structured masks; oracle: bit-at-a-time loops".into(),
+        space: "CompressionBmi2Dispatcher: dispatch_bit_stream_process {PopCount, LeadingZeros, TrailingZeros, BitReverse} on all of W (chunks of 128 words); dispatch_variable_length_decode on W x structured masks, masks of <= 32 bits and of > 32 bits as separate variants; oracle: bit-at-a-time loops (low 32 bits of the extraction)".into(),
         gen: Box::new(gen),
         run: Box::new(run),
         isolate: false,
